@@ -80,6 +80,17 @@ fn check_path(t: &mut Tally, input: &str) {
                         bad("equal values must hash equally", json!("equal hashes"), json!("different hashes"));
                         return;
                     }
+                    // equal values are equal under every comparison the type offers
+                    use std::cmp::Ordering::Equal;
+                    if a.cmp(p) != Equal || b.cmp(p) != Equal || p.cmp(&a) != Equal || a.partial_cmp(&b) != Some(Equal) {
+                        bad("equal values must compare Equal under Ord / PartialOrd", json!("Equal"), json!(format!("{:?} / {:?} / {:?}", a.cmp(p), b.cmp(p), a.partial_cmp(&b))));
+                        return;
+                    }
+                    let set: std::collections::BTreeSet<&PkgPath> = [&a, &b, p].into_iter().collect();
+                    if set.len() != 1 {
+                        bad("equal values collapse to one element of an ordered set", json!(1), json!(set.len()));
+                        return;
+                    }
                 }
                 other => {
                     bad("the canonical spellings of an accepted path must be accepted", json!("Ok, Ok"), json!(format!("{:?}", other)));
